@@ -117,6 +117,25 @@ def _lazy_record_globals(u, over=None):
     return glob
 
 
+def _ret_type(u, f):
+    t = (u.fn(f).dtype or u.fn(f).type or '')
+    return t.split('(')[0].strip()
+
+
+def _driver_cut(u, facts):
+    """functions of main.c at which an exploration of the driver's main always stops: the stage functions, the temp creator,
+    the process launchers, the cc1 role and the option parser (the state after option parsing is what an exploration fixes)"""
+    return set(SUBPROC) | set(facts.get('tmp_fns', ())) | set(facts.get('fork_fns', ())) | {'cc1', 'parse_args'}
+
+
+def _light_helper(u, facts, f):
+    """a helper main may have been split into: interpreted rather than cut, so that a test or a group of statements moved into
+    a function is still seen (scalar or no result, no string parameter: its paths add nothing a symbolic exploration cannot carry)"""
+    if f == 'main' or f in _driver_cut(u, facts) or '*' in _ret_type(u, f):
+        return False
+    return not any('char' in (p_.dtype or p_.type or '') for p_ in u.params(f))
+
+
 def run(P, rep, tier):
     u = P.unit(U)
     for f in ('main', 'cc1'):
@@ -135,12 +154,17 @@ def run(P, rep, tier):
                        'the file names handed to the stages and opened in cc1 are exactly the requested outputs and every inter-stage file is a mkstemp name (R14.8); '
                        'the same for concrete command lines interpreted through the real option parser (mode x language of the input chosen by suffix or -x x objects/libraries): files written and stages started are those the command line asks for; '
                        'a failed open of an input is fatal or reported upwards at every level of the call chain (R14.9); the front end (cc1 and its phases) is reachable only from what main calls in the cc1 role, never from '
-                       'what it calls in the driver role, so a crash of the front end cannot take the process that owns the temporaries with it (R14.10); functions explored on their own '
+                       'what it calls in the driver role, so a crash of the front end cannot take the process that owns the temporaries with it (R14.10); with one of the mode flags -E/-M/-S/-c set and everything else '
+                       '(other options, option lists, the kind of the input) open, no path of main starts a stage the mode excludes (R14.11); in the launcher the driver may own one more child than the one it started '
+                       '(inherited through exec): the stage it started must have been reaped, and its own status decided on, before the launcher returns (R14.4); functions explored on their own '
                        '(temp creator, launchers, stage functions) are decided for every state of the option lists, not only the empty one. '
                        'Does not decide behaviour under real kill points or real concurrent schedules; '
                        'temp-name uniqueness is decided only as "names come from mkstemp".')
     rep.assumptions += ['wait status encoding of Linux/glibc (low 7 bits signal, bit 7 core, bits 8-15 exit code)',
                         'wait() returns -1 without writing the status when the caller has no child',
+                        'the driver may own at most one child it did not start (a process keeps its children across exec); that child exits with status 0 at any time relative to the stage; '
+                        'a wait for any child (wait, wait3, waitpid/wait4 with pid -1 / 0, waitid P_ALL / P_PGID) returns the children in either order',
+                        'R14.11: every combination of the option globals is a possible state after option parsing; a function of main.c with a scalar or no result is part of main for this purpose',
                         'the driver starts with default signal dispositions; Linux signal numbers; the default action of every signal except SIGCHLD, SIGCONT, SIGURG, SIGWINCH and the stop signals terminates the process without running atexit handlers',
                         'posix_spawn/posix_spawnp report every failure to start the program (including, with glibc >= 2.24, a failed exec) as a positive errno return value, never as -1 and not through errno; '
                         'the alternative POSIX allows (child exits with 127) is covered by the wait statuses',
@@ -571,9 +595,12 @@ def r143_r144(P, u, rep, cg, reach_main, facts):
         if 'fork' not in kinds[fn]:
             # posix_spawn* / system create the child inside libc: it execs or _exits there and never runs code (or handlers) of this program
             rep.ob('R14.3', '%s:%s:child-side-stays-in-libc' % (cu.name, fn), True, '', where=w)
+        inherited = {}      # parent paths by the number of children the process owns besides the one it started (decided at a wait for any child)
         for ctx, out in paths:
             st = L.proc_state(ctx)
             role = st['role']
+            if role == 'parent' and st.get('inherited') is not None:
+                inherited[st['inherited']] = inherited.get(st['inherited'], 0) + 1
             for (f, r) in st['entered']:
                 entered_roles.setdefault(f, set()).add(r)
             if out[0] == 'noreturn' and out[1] in L.HARD_EXIT:
@@ -641,6 +668,8 @@ def r143_r144(P, u, rep, cg, reach_main, facts):
                     rep.ob('R14.4', '%s:%s:%s-reads-uninitialised-value' % (cu.name, fn, cls), False,
                            'after a successful wait the decision depends on a variable that was never written', where=w, facts=trail)
                     continue
+                if out[0] == 'ret':
+                    rep.ob('R14.4', '%s:%s:own-child-reaped-before-return' % (cu.name, fn), True, '', where=w)
                 if cls == 'child-success':
                     rep.ob('R14.4', '%s:%s:child-success-%s' % (cu.name, fn, 'continues' if out[0] == 'ret' else 'terminates-driver'), out[0] == 'ret',
                            'a child that exited with status 0 makes the driver terminate (%s): the pipeline stops after its first stage' % (out[1],), where=w, facts=trail)
@@ -691,6 +720,9 @@ def r143_r144(P, u, rep, cg, reach_main, facts):
         for role, n in seen.items():
             if n == 0:
                 rep.undecided('R14.3', '%s:%s:no-%s-path' % (cu.name, fn, role), 'no explored path with process-creation outcome `%s`' % role)
+        if inherited.get(0) and not inherited.get(1):
+            rep.undecided('R14.4', '%s:%s:no-path-with-inherited-child' % (cu.name, fn),
+                          '%s waits for any child, but no path on which the process owns a child it did not start was explored to its end (cut off by an iteration bound)' % fn)
     # ---- whole program: hard exits reachable from main that the exploration did not see on child-only paths
     def is_child_only(caller):
         roles = entered_roles.get(caller)
@@ -903,7 +935,7 @@ def r146(P, u, rep, cg, facts):
     models = {'strarray_push': _m_strarray_push}
     for t in tmp_fns:
         models[t] = m_tmp
-    opaque = [f for f in u.functions if f not in ('main',)]
+    opaque = [f for f in u.functions if f != 'main' and not _light_helper(u, facts, f)]
 
     def lazy_globals(over=None):
         glob = {}
@@ -1054,12 +1086,9 @@ def r1411(P, u, rep, cg, facts):
     # the option parser and the name builders (pointer result) are calls whose result is open
     all_opaque = [f for f in u.functions if f != 'main']
 
-    def ret_type(f):
-        t = (u.fn(f).dtype or u.fn(f).type or '')
-        return t.split('(')[0].strip()
-    keep = set(SUBPROC) | set(tmp_fns) | set(facts.get('fork_fns', ())) | {'parse_args', 'cc1'}
-    helpers = [f for f in all_opaque if f not in keep and '*' not in ret_type(f)]
-    answer = set(f for f in all_opaque if f not in keep and '*' not in ret_type(f) and ret_type(f) != 'void')
+    keep = _driver_cut(u, facts)
+    helpers = [f for f in all_opaque if f not in keep and '*' not in _ret_type(u, f)]
+    answer = set(f for f in helpers if _ret_type(u, f) != 'void')
 
     def explore(over, k, opaque):
         glob = _lazy_record_globals(u, dict(over, opt_cc1=0, input_paths=(lambda ctx: Obj('StringArray', lazy=False, label='g:input_paths',
@@ -1317,7 +1346,8 @@ def r148(P, u, rep, cg, facts):
     models['strarray_push'] = _m_strarray_push
     for t in tmp_fns:
         models[t] = m_tmp
-    opaque = [f for f in u.functions if f != 'main' and f not in pure]
+    # (everything is concrete here: helpers main was split into are interpreted, only the cut functions stay calls)
+    opaque = [f for f in u.functions if f in _driver_cut(u, facts)]
     w = _where(u.fn('main'))
     scenarios = [
         ('E', 'E', 0, [_C1, _C2], []),
@@ -1364,7 +1394,7 @@ def r148(P, u, rep, cg, facts):
             _check_pipeline_names(rep, key0, sc, ctx, ins, expect, w)
         if nret == 0:
             rep.undecided('R14.8', key0 + ':no-success-path', 'no path of main returns for scenario %s' % sc)
-    _r148_cmdlines(P, u, rep, cg, pure, models)
+    _r148_cmdlines(P, u, rep, cg, pure, models, facts)
     _r148_handover(P, u, rep, cg, facts, pure)
     _r148_cc1(P, u, rep, cg)
 
@@ -1421,18 +1451,20 @@ _CMDLINES = [
     ('c-asm-lib', ['-c'], [_A1, '-lm'], [_stem(_A1) + '.o'], ['as']),
     ('c-ar-dso', ['-c'], [_C1, 'lib.d/libz.v1.a', 'lib.d/libq.v2.so'], [_stem(_C1) + '.o'], ['cc1', 'as']),
     ('S-asm-lib', ['-S'], [_A1, '-lm'], [], []),
+    ('M-Xlinker', ['-M'], [_C1, '-Xlinker', '--as-needed'], [], ['cc1']),
+    ('c-Xlinker', ['-c'], ['-Xlinker', '--as-needed', _C1], [_stem(_C1) + '.o'], ['cc1', 'as']),
     ('link-lib-Wl', [], [_C1, '-lm', '-Wl,-z,now'], ['a.out'], ['cc1', 'as', 'ld']),
     ('link+MD-lib', ['-MD'], [_C1, '-lm'], ['a.out'], ['cc1', 'as', 'ld']),
 ]
 
 
-def _r148_cmdlines(P, u, rep, cg, pure, models):
+def _r148_cmdlines(P, u, rep, cg, pure, models, facts):
     if 'parse_args' not in u.functions:
         rep.undecided('R14.8', '%s:main:cmd:option-parser' % U, 'parse_args vanished: command lines cannot be interpreted')
         return
     models = dict(models)
     models['strarray_push'] = _m_strarray_push_store
-    opaque = [f for f in u.functions if f not in ('main', 'parse_args') and f not in pure]
+    opaque = [f for f in u.functions if f in _driver_cut(u, facts) and f != 'parse_args']
     w = _where(u.fn('main'))
     for label, opts, ins, expect, want_stages in _CMDLINES:
         key0 = '%s:main:cmd-%s' % (U, label)
